@@ -14,9 +14,9 @@ import vlib
 LEVEL = "model_checking"
 
 
-def consts(n, maxt, md, calls, due=True, atomic=True, fault="none", reset=True):
+def consts(n, maxt, md, calls, due=True, atomic=True, fault="none", reset=True, rep=0):
     return {"NTasks": n, "MaxT": maxt, "MD": md, "MaxCalls": calls, "DueCheck": due, "AtomicHandlers": atomic,
-            "Fault": '"%s"' % fault, "ResetUnderLock": reset}
+            "Fault": '"%s"' % fault, "ResetUnderLock": reset, "RepIv": rep}
 
 
 def cex_steps(r):
@@ -38,7 +38,8 @@ CEX = {}
 
 def model_check(ctx, quick):
     inv = ["NoSelfOverlap", "NoEarlyStart", "NothingLost", "NoStartAfterCancel", "NoEarlyOvertime"]
-    runs = [consts(2, 3, 10, 3)] if quick else [consts(2, 3, 10, 4), consts(2, 3, 2, 3), consts(3, 2, 10, 3)]
+    runs = [consts(2, 3, 10, 3), consts(2, 3, 10, 3, rep=1)] if quick else \
+        [consts(2, 3, 10, 4), consts(2, 3, 2, 3), consts(3, 2, 10, 3), consts(2, 4, 10, 3, rep=2), consts(2, 3, 2, 4, rep=1)]
     for c in runs:
         ctx.tlc("TasksImpl", cfg_text=vlib.cfg_text(constants=c, invariants=inv, view="View"), timeout=3000)
     # model-level reproduction of the recorded findings (informational: never a verdict)
@@ -73,7 +74,9 @@ def model_check(ctx, quick):
 def gen_scripts(ctx, quick):
     rnd = random.Random(ctx.seed)
     cfgs = [consts(2, 3, 10, 3, atomic=False), consts(2, 3, 10, 5, atomic=False), consts(3, 3, 10, 5, atomic=False),
-            consts(2, 3, 2, 4, atomic=False), consts(3, 2, 10, 6, atomic=True)]
+            consts(2, 3, 2, 4, atomic=False), consts(3, 2, 10, 6, atomic=True),
+            # Task.Repeat (interval 1 or 2 clock units, through the verif accessor)
+            consts(2, 4, 10, 4, atomic=False, rep=1), consts(2, 5, 10, 5, atomic=False, rep=2), consts(2, 4, 3, 5, atomic=False, rep=1)]
     per = 14 if quick else 120
 
     def one(a):
@@ -98,6 +101,31 @@ def gen_scripts(ctx, quick):
         steps.append({"a": "end", "t": 1, "k": "-", "at": 0})
         scripts.append({"n": n, "md": 100, "unit": 100, "ordered": True, "auto": True, "holdMs": rnd.choice([5, 25]),
                         "steps": steps, "family": "order", "freeHandlers": True})
+    # two-round order scripts: in the first round some tasks sit in the normal AND the prioritized queue when they are
+    # started; in the second round they are submitted again (every list-element pointer must have been cleared)
+    A = lambda t, k: {"a": "api", "t": t, "k": k, "at": 0}
+    tick = {"a": "tick", "t": 0, "k": "-", "at": 0}
+    for _ in range(8 if quick else 60):
+        n = rnd.choice([3, 4, 5])
+        steps = [A(1, "queue"), {"a": "await", "t": 1, "k": "-", "at": 0}]
+        both = [t for t in range(2, n + 1) if rnd.random() < 0.7] or [2]
+        for t in range(2, n + 1):
+            ks = ["queue", "prio"] if t in both else [rnd.choice(["queue", "prio", "asap"])]
+            rnd.shuffle(ks)
+            steps += [A(t, k) for k in ks]
+        steps += [{"a": "end", "t": 1, "k": "-", "at": 0}] + [tick] * 4
+        steps += [A(1, "queue"), {"a": "await", "t": 1, "k": "-", "at": 0}]
+        for _ in range(rnd.randrange(3, 8)):
+            steps.append(A(rnd.randrange(2, n + 1), rnd.choice(["queue", "prio", "prio", "asap", "asap"])))
+        steps += [{"a": "end", "t": 1, "k": "-", "at": 0}]
+        scripts.append({"n": n, "md": 100, "unit": 100, "ordered": True, "auto": True, "holdMs": rnd.choice([5, 25]),
+                        "steps": steps, "family": "order2", "freeHandlers": True})
+    # a task that is submitted again while it runs and whose function then panics: the second run must still happen
+    for kind in ["queue", "prio", "asap"] * (1 if quick else 4):
+        scripts.append({"n": 2, "md": 100, "unit": 100, "ordered": False, "auto": False, "holdMs": 25, "freeHandlers": True,
+                        "panics": [1], "family": "panic-requeue",
+                        "steps": [A(1, "queue"), {"a": "await", "t": 1, "k": "-", "at": 0}, A(1, kind),
+                                  {"a": "end", "t": 1, "k": "-", "at": 0}, tick, tick, tick]})
     # adversarial schedules: TLC's counterexamples on the model variants, replayed against the real code
     for fam, (steps, md) in CEX.items():
         if steps:
@@ -198,7 +226,8 @@ def run(ctx):
     }, ["clock unit 100 ms; an early start is a start decision more than 20 ms before the scheduled time",
         "task functions run at least 20 ms (a function returning within microseconds can stall the queue for the documented "
         "execution-wait limit of one minute, which the property allows)",
-        "Repeat (minimum interval one minute) only in the model", "yield points compiled in with -tags verif"])
+        "Task.Repeat is driven through the accessor modules.VerifRepeat (the API enforces a minimum interval of one minute); "
+        "Repeat(0) through the API", "yield points compiled in with -tags verif"])
 
 
 def replay(ctx, path):
